@@ -8,6 +8,7 @@ import Orda.Proofs.Replay
 import Orda.Proofs.ListTxNet
 import Orda.Proofs.MapTxNet
 import Orda.Proofs.DocTxNet
+import Orda.Proofs.TxNetCreate
 namespace Orda.Props.C09
 open Orda
 
@@ -138,5 +139,36 @@ theorem document_failed_transaction_changes_nothing (cuid : Nat → String) (n :
     (nd.r.txCalls tag calls stopOnErr failAtEnd).1.buffer = nd.r.buffer ∧
     (nd.r.txCalls tag calls stopOnErr failAtEnd).1.cp = nd.r.cp :=
   dtx_failed_tx_is_noop h hi tag calls stopOnErr failAtEnd c he
+
+/-! ## Documents, the system as it really starts (creating client, snapshot operation at the head of the log; Proofs/TxNetCreate) -/
+
+open Orda.DNet Orda.DTx Orda.TxNetC in
+/-- a failing user transaction on ANY node of ANY reachable state of the created system leaves the log and every node — operation
+    identifier, state, buffer, checkpoint, counters — unchanged -/
+theorem created_failed_transaction_changes_nothing_anywhere {cuid : Nat → String} {n : Nat} {net : Net} (h : ReachC cuid n net)
+    {i : Nat} {nd : Node} (hi : net.nodes[i]? = some nd) (tag : String) (calls : List Call) (stopOnErr failAtEnd : Bool) (c : Nat)
+    (herr : (nd.r.txCalls tag calls stopOnErr failAtEnd).2.2 = .err c) {net' : Net}
+    (hnet : net' = ⟨net.nodes.set i { nd with r := (nd.r.txCalls tag calls stopOnErr failAtEnd).1 }, net.log⟩) :
+    net'.log = net.log ∧ ∀ (j : Nat) (nd' : Node), net'.nodes[j]? = some nd' →
+      ∃ ndj, net.nodes[j]? = some ndj ∧ nd'.r.opId = ndj.r.opId ∧ nd'.r.state = ndj.r.state ∧
+        nd'.r.buffer = ndj.r.buffer ∧ nd'.r.cp = ndj.r.cp ∧ nd'.pushed = ndj.pushed ∧ nd'.pulled = ndj.pulled :=
+  created_dtx_failed_transaction_changes_nothing h hi tag calls stopOnErr failAtEnd c herr hnet
+
+open Orda.DNet Orda.TxNetC in
+/-- the log is a sequence of units (the creation snapshot operation is a unit of one), and every node has applied each foreign unit
+    entirely or not at all -/
+theorem created_committed_transaction_all_or_nothing_everywhere {cuid : Nat → String} {n : Nat} {net : Net} (h : ReachC cuid n net) :
+    ∃ units : List (Nat × List Op),
+    net.log = units.flatMap (fun (a, u) => u.map (a, ·)) ∧ (∀ au ∈ units, LTx.IsUnit au.2) ∧
+    ∀ (i : Nat) (nd : Node), net.nodes[i]? = some nd → ∀ au ∈ units, au.1 ≠ i →
+      (∀ o ∈ au.2, TxNetC.Applied net i (au.1, o)) ∨ (∀ o ∈ au.2, ¬ TxNetC.Applied net i (au.1, o)) :=
+  created_dtx_committed_transaction_all_or_nothing h
+
+open Orda.DNet Orda.DTx Orda.TxNetC Orda.DA in
+/-- with transactions and patches as steps, creator included: at quiescence all replicas hold the same document -/
+theorem created_transactional_net_converges {cuid : Nat → String} {n : Nat} {net : Net} (h : ReachC cuid n net) (hq : Quiescent net)
+    (i j : Nat) (hi : i < net.nodes.length) (hj : j < net.nodes.length) (di dj : Doc) (hdi : net.nodes[i].r.state = .doc di)
+    (hdj : net.nodes[j].r.state = .doc dj) : ASim di dj ∧ di.view.canon = dj.view.canon :=
+  created_dtx_quiescent_converged h hq i j hi hj di dj hdi hdj
 
 end Orda.Props.C09
